@@ -14,10 +14,19 @@ TRAVERSALS = {"dfs", "bfs", "gather", "get_child_nodes", "get_child_nodes_with_f
 # Locals that hold an object constructed on the same path (not yet visible to anyone else).
 # (module, function, local) -> reason
 FRESH_LOCALS = {
-    ("pyoak.node", "ASTNode._deserialize", "new_obj"):
-        "re-created by super()._deserialize on this path; the id is forced before the object is returned",
     ("pyoak.codegen", "_gen_func", "new_f"): "function object just created by exec; not a node",
 }
+FRESH_ROLE = {("pyoak.node", "ASTNode._deserialize"): "re-created by super()._deserialize on this path; the id is forced before the object is returned"}
+
+
+def is_fresh_local(f, name: str) -> str | None:
+    if (f.mod.name, f.qualname, name) in FRESH_LOCALS:
+        return FRESH_LOCALS[(f.mod.name, f.qualname, name)]
+    if (f.mod.name, f.qualname) in FRESH_ROLE:
+        from ..dcmodel import fresh_object_local
+        if fresh_object_local(f.node) == name:
+            return FRESH_ROLE[(f.mod.name, f.qualname)]
+    return None
 
 
 def node_classes(ck: Checker) -> set[str]:
@@ -154,11 +163,11 @@ def r_bypass(ck: Checker, ncls: set[str]) -> None:
                     cat = f"self of non-node class {f.cls.name}"
             elif nm in ("cls", "clz") or nm in class_names or (nm in ps and ann_is_class(ps[nm])):
                 cat = "class object"
-            elif (f.mod.name, f.qualname, nm) in FRESH_LOCALS:
+            elif is_fresh_local(f, nm):
                 binds = local_bindings(f.node, nm)
                 if len(binds) == 1 and isinstance(binds[0], ast.Assign) and isinstance(binds[0].value, ast.Call) \
                         and "NODE_REGISTRY" not in norm(binds[0].value):
-                    cat = "fresh local: " + FRESH_LOCALS[(f.mod.name, f.qualname, nm)]
+                    cat = "fresh local: " + is_fresh_local(f, nm)
                 else:
                     ck.violation("R-BYPASS-WRITE", f, w.node, what,
                                  construct=f"{w.kind} on {nm}.{w.attr}: local is not bound exactly once to a constructing call",
@@ -273,7 +282,7 @@ def r_bypass_typed(ck: Checker, ncls: set[str]) -> None:
         is_cls = any(t.startswith(("type[", "def (")) or "Type[" in t for t in ts)
         what = "typed cross-check: no attribute write has a receiver whose inferred type is a node instance, except objects under construction"
         allowed = (isinstance(r, ast.Name) and r.id == "self" and f.qualname.split(".")[-1] == "__post_init__") or \
-            (isinstance(r, ast.Name) and (f.mod.name, f.qualname, r.id) in FRESH_LOCALS)
+            (isinstance(r, ast.Name) and is_fresh_local(f, r.id) is not None)
         if is_node and not is_cls and not allowed:
             ck.violation("R-BYPASS-WRITE", f, w.node, what, construct=f"{w.kind} on {w.recv}.{w.attr}: receiver has inferred type {ts[0]}")
         else:
